@@ -830,11 +830,17 @@ class Interp:
         if k == 'le':
             s.add_le(atom[1])
         elif k == 'eq':
+            if self.models.e3:
+                from . import eqg
+                eqg.on_atom(self, st, atom)
             if self.models.e3 and 'search' in st.ghost:
                 from . import e3
                 e3.on_eq(self, st, atom[1])      # before the equality eliminates the byte symbol
             s.add_eq(atom[1])
         elif k == 'ne':
+            if self.models.e3:
+                from . import eqg
+                eqg.on_atom(self, st, atom)
             s.add_ne(atom[1])
             if self.models.e3 and 'search' in st.ghost:
                 from . import e3
@@ -865,6 +871,9 @@ class Interp:
         s = st.store
         if s.unsat:
             return True
+        if k in ('eq', 'ne') and self.models.e3:
+            from . import eqg
+            eqg.saturate(self, st, atom)
         if k == 'le':
             return s.entails_le(atom[1])
         if k == 'eq':
